@@ -27,6 +27,7 @@ CORPUS = [
     "typedef struct { uint8 k; uint16 l; } rec_t;\nstruct user { rec_t r; };",
     "struct { uint8 z; uint16 q; } point;\nstruct usep { point p; };",
     "typedef union { uint8 k; uint16 l; } un_t;\nstruct useu { un_t u; uint8 t; };",
+    "typedef uint32 *ptr_t;\ntypedef char *str_t;\nstruct usep { ptr_t p; str_t s; uint8 *q; };",
 ]
 UNITS = [
     "struct un1 { uint8 a; uint16 b; };",
@@ -35,6 +36,9 @@ UNITS = [
     "#define UN4 7",
     "struct un5 { char s[4]; uint32 v; };",
     "flag UN6 { M, N };",
+    # a constant and an enum member with the same name: the member's own declaration decides what the name means inside it
+    "#define UN7A 9",
+    "enum UN7 { UN7A = 1, UN7B = UN7A + 1, UN7C };",
 ]
 CTOKEN = re.compile(r"\s*([A-Za-z_][A-Za-z0-9_]*|0[xX][0-9a-fA-F]+|\d+|<<|>>|[{};\[\]:*,=()+\-/%&|^~#])")
 SAMPLE = bytes((i * 73 + 11) % 256 for i in range(96))
